@@ -264,6 +264,8 @@ type pre4abs struct {
 	lzero bool
 }
 
+var otherN int
+
 func fourWayIP(c string, own net.IP) net.IP {
 	switch c {
 	case "zero":
@@ -271,7 +273,9 @@ func fourWayIP(c string, own net.IP) net.IP {
 	case "own":
 		return own
 	case "other":
-		return net.IPv4(10, 99, 99, 99).To4()
+		// another server: whatever kind of address it has (private, link-local, loopback, multicast, class E, all ones)
+		otherN++
+		return [][]byte{{10, 99, 99, 99}, {169, 254, 7, 7}, {127, 0, 0, 9}, {224, 0, 0, 9}, {240, 0, 0, 1}, {255, 255, 255, 255}, {8, 8, 4, 4}}[otherN%7]
 	}
 	return nil
 }
@@ -304,6 +308,11 @@ func buildPlug4(a req4abs, p pre4abs, own net.IP, r *rand.Rand) (*dhcpv4.DHCPv4,
 	}
 	if a.ac {
 		req.Options[uint8(dhcpv4.OptionAutoConfigure)] = []byte{byte(r.Intn(2))}
+	}
+	if r.Intn(3) == 0 {
+		// a vendor class identifier, well formed or cut short
+		vc := []string{"PXEClient", "PXEClient:Arch:00000:UNDI:002001", "HTTPClient", "HTTPClient:Arch:", "HTTPClient:Arch:16", "HTTPClient:Arch:00016:UNDI:003001", "MSFT 5.0", ""}[r.Intn(8)]
+		req.Options[uint8(dhcpv4.OptionClassIdentifier)] = []byte(vc)
 	}
 	if ip := fourWayIP(a.siaddr, own); ip != nil {
 		req.ServerIPAddr = ip
@@ -373,6 +382,9 @@ func sidFor(rel string, ownDUID []byte) dhcpv6.DUID {
 		m2 := append(net.HardwareAddr{}, mac...)
 		m2[5] ^= 0x01
 		return mk(isLLT, m2)
+	case "huge":
+		// longer than the 128 + 2 octets RFC 8415 11.1 allows: still a Server Identifier, and not this server's
+		return &dhcpv6.DUIDEN{EnterpriseNumber: 32473, EnterpriseIdentifier: bytes.Repeat([]byte{0xab}, 140)}
 	}
 	return nil
 }
@@ -799,7 +811,7 @@ func runPluginOne(t *Trace, pl string, proto int, args []string, reqs string, se
 	if pl == "server_id" {
 		for pass := 0; pass < 2; pass++ {
 			for typ := 1; typ <= 11; typ++ {
-				for _, sid := range []string{"none", "same", "otherkind", "longer", "differs"} {
+				for _, sid := range []string{"none", "same", "otherkind", "longer", "differs", "huge"} {
 					for depth := 0; depth <= 2; depth++ {
 						observe6(t, pl, args, h6, req6abs{typ: typ, oro: oros[r.Intn(len(oros))], sid: sid, depth: depth}, ownDUID, r, cfg)
 					}
@@ -807,7 +819,7 @@ func runPluginOne(t *Trace, pl string, proto int, args []string, reqs string, se
 			}
 		}
 		for typ := 1; typ <= 11; typ++ {
-			for _, sid := range []string{"none", "same", "otherkind", "longer", "differs"} {
+			for _, sid := range []string{"none", "same", "otherkind", "longer", "differs", "huge"} {
 				for depth := 0; depth <= 2; depth++ {
 					observe6(t, pl, args, h6, req6abs{typ: typ, oro: oros[r.Intn(len(oros))], sid: sid, depth: depth}, ownDUID, r, cfg)
 				}
@@ -1005,6 +1017,7 @@ func tableConfigs() []struct {
 		{"ipv6only", 4, []string{}}, {"ipv6only", 4, []string{"300s"}}, {"ipv6only", 4, []string{"2h"}},
 		{"autoconfigure", 4, []string{}}, {"autoconfigure", 4, []string{"0"}}, {"autoconfigure", 4, []string{"1"}}, {"autoconfigure", 4, []string{"AutoConfigure"}},
 		{"autoconfigure", 4, []string{"DoNotAutoConfigure"}},
+		{"nbp", 4, []string{"tftp://10.0.0.254/images/boot%20loader/gr%C3%BCb.efi"}}, {"nbp", 4, []string{"tftp://10.0.0.254/a%5Bb%5D/c%7Cd"}},
 		{"nbp", 4, []string{"tftp://10.0.0.2/pxelinux.0"}}, {"nbp", 4, []string{"http://boot.example.org/ipxe.efi"}}, {"nbp", 4, []string{"https://boot.example.org/a/b?x=1"}},
 		{"nbp", 6, []string{"http://[2001:db8::1]/boot.efi"}}, {"nbp", 6, []string{"tftp://[2001:db8::2]/pxe?params=root=/dev/nfs"}},
 		{"sleep", 4, []string{"1ms"}}, {"sleep", 6, []string{"2ms"}},
